@@ -1101,6 +1101,18 @@ func selftest() int {
 		fmt.Fprintln(os.Stderr, err)
 		return 2
 	}
+	// stub conformance (DESIGN §2.5): the stub task runner against the real taskctl.TaskRunner
+	{
+		cmd := exec.Command(bin, "-test.run", "^TestStubConformance$", "-test.v")
+		cmd.Env = append(os.Environ(), "VERIF_CONFORMANCE=1")
+		cmd.Dir = verifDir
+		b, err := cmd.CombinedOutput()
+		if err != nil || !strings.Contains(string(b), "--- PASS: TestStubConformance") {
+			fmt.Fprintf(os.Stderr, "selftest: stub conformance FAILED\n%s\n", b)
+			return 2
+		}
+		fmt.Printf("selftest stub conformance: %d scenarios agree with taskctl.TaskRunner\n", strings.Count(string(b), "conformance "))
+	}
 	n := 14
 	if s := os.Getenv("VERIF_SELFTEST_SEEDS"); s != "" {
 		n, _ = strconv.Atoi(s)
